@@ -22,7 +22,7 @@ def check(pid, engine, category, text, note, technique, design_ref, thorough=Tru
 
 CHECKS = [
     check("C01", "mon-stm", "exploration",
-          "Runtime monitor: every candidate aggregate (honest + ~60 structure-aware mutators of the wire value, through JSON/CBOR/legacy decoders, single and batched incl. the algebraic cross-member compensation adversary) is judged by the real verify/batch_verify of the working tree and by an independent acceptance rule written from the statement (blst + blake2 + a logarithm-based lottery); accept => reference-accept is asserted on every execution. Held on the tens of thousands of seeded cases explored per run, not a proof.",
+          "Runtime monitor: every candidate aggregate (honest + ~70 structure-aware mutator families of the wire value - index / slot / stake / key / sigma edits incl. one sigma under two slots and sigma shifted by a point outside the prime-order subgroup, entries appended behind an untouched batch path, batch-path edits - through JSON/CBOR/legacy decoders, single and batched incl. the algebraic cross-member compensation adversary and batch members verified under their own stricter parameters) is judged by the real verify/batch_verify of the working tree and by an independent acceptance rule written from the statement (blst + blake2 + a logarithm-based lottery); accept => reference-accept is asserted on every execution. Held on the tens of thousands of seeded cases explored per run, not a proof.",
           "trusts blst/blake2 as primitives, the harness reference rule (self-checked against honest aggregates), BLS unforgeability; lottery draws within 1e-9 relative of the threshold are skipped",
           "runtime monitor: differential oracle (independent acceptance rule) over mutated wire values", "DESIGN.md §2 C01"),
     check("C02", "mon-stm", "exploration",
@@ -31,7 +31,7 @@ CHECKS = [
           "runtime monitor: metamorphic (monotonicity / order independence) + completeness oracle over generated multisets", "DESIGN.md §2 C02"),
     check("C03", "mon-chain", "exploration",
           "Runtime monitor: the provider's answer table (hash -> certificate served, lies included) is judged by mithril-common's verify_certificate_chain through a harness retriever and by mithril-client's verify_chain (feature unstable: cold, warm and poisoned-by-earlier-run caches), and by an INDEPENDENT reference validator that walks previous_hash through the same table requiring exactly the conjuncts of the statement (bounded walk => loops detected); accept => reference accepts, honest chains accepted. Tamperings: every single-field edit with/without hash recomputation, adversary with its own keys and genesis key (internally consistent re-signing), links re-targeted to same / previous / NEXT / older epochs, drop, duplicate, loops, wrong certificate for a hash, and 17 fully-signed single-conjunct breaks.",
-          "certificate hash / message digest of the working tree used as definitions (C04 judges them); multi-signature validity from the STM verifier (C01 judges it); a chain whose genesis certificate carries altered (unsigned) key/parameter fields satisfies the statement literally and is counted, not reported",
+          "certificate hash / message digest of the working tree used as definitions (C04 judges them); the commitment to protocol parameters is computed by the reference itself (k, m, phi_f at fixed-point precision; out-of-range phi_f equals nothing) and the `fixed` crate is built without its debug assertions, as in production; multi-signature validity from the STM verifier (C01 judges it); a chain whose genesis certificate carries altered (unsigned) key/parameter fields satisfies the statement literally and is counted, not reported",
           "runtime monitor: reference validator over the provider answer table (differential) incl. cache histories", "DESIGN.md §2 C03"),
     check("C04", "mon-wire", "exploration",
           "Runtime monitor: (a) ~170 single-field mutators per certificate, generated against an exhaustive destructuring of Certificate / metadata / parties / parameters / every SignedEntityType variant / protocol message parts (a new upstream field breaks the harness build => inconclusive), each must change try_compute_hash; (b) protocol messages over the honest value grammar, random pairs and constructed near-collisions (characters moved between adjacent parts, parts dropped/added): equal digest => equal message; (c) Certificate -> CertificateMessage -> JSON text (field order shuffled, whitespace, number re-formatting, float spellings) -> back: same hash, same signed message, same verdict of the certificate verifier on real chains.",
@@ -43,7 +43,7 @@ CHECKS = [
           "runtime monitoring with sanitizing allocator, panic hook and process isolation over mutated encodings", "DESIGN.md §2 C05"),
     check("C06", "mon-stm", "exploration",
           "Runtime monitor: for each generated registration set the aggregate key bytes, total stake and every party's slot are observed through mithril-stm directly, through mithril-common's SignerBuilder over KES-certified fixture signers, and after passing signers and key through their JSON/hex wire forms; observations must be equal across all registration orders (all n! for n<=6, sampled above) and paths, and differ for neighbouring sets. Held on the sets explored.",
-          "Blake2b collision resistance; equal-prefix keys are drawn from a pool of a few hundred keys (pairs sharing 2 leading bytes, not more)",
+          "Blake2b collision resistance; registration histories include refused re-registration attempts of already registered keys; equal-prefix keys are drawn from a pool of a few hundred keys (pairs sharing 2 leading bytes, not more)",
           "runtime monitor: metamorphic equality across permutations / computation paths / codecs", "DESIGN.md §2 C06"),
     check("C07", "mon-reg", "exploration",
           "Runtime monitor with ground truth by construction: the harness makes cold keys, Sum6Kes keys evolved to chosen periods, operational certificates and STM keys itself and keeps a ledger of everything genuinely signed; every submission (component mutations, all pairwise splices of two valid registrations, announced evolutions at all boundaries, absent/zero-stake pools, certificate-less registration) is pushed through KeyRegWrapper::register, the aggregator's MithrilSignerRegistrationVerifier::verify and MithrilSignerRegistrationLeader::register_signer; accepted <=> all conjuncts of the statement hold, recorded party = derived pool id, recorded stake = distribution value.",
@@ -51,7 +51,7 @@ CHECKS = [
           "runtime monitor: ground-truth-by-construction oracle over mutated and spliced registrations", "DESIGN.md §2 C07"),
     check("C08", "mon-stm", "exploration",
           "Runtime monitor with an offline exact checker: the real is_lottery_won (eligibility.rs of the working tree compiled in by path inclusion) is evaluated on ~20k (quick) to millions (thorough) of cases concentrated around the threshold; every decision is logged and judged by an independent mpmath (600-bit) evaluation of p < 1-(1-phi)^(stake/total) outside a 2^-40 band; determinism, monotonicity chains, stake 0, phi 1 and signer/verifier agreement per index are asserted online.",
-          "mpmath as reference; 2^-40 band around equality is not judged; only the num-integer backend (the one compiled in this workspace) is observed",
+          "mpmath as reference; 2^-40 band around equality is not judged; purity re-evaluations (a neighbouring call with the same stake share / another phi_f right before the case is evaluated again) are logged for the exact judge too; only the num-integer backend (the one compiled in this workspace) is observed",
           "runtime monitor: decision log + offline exact-arithmetic checker (differential), online monotonicity/determinism assertions", "DESIGN.md §2 C08"),
     check("C09", "mon-merkle", "exploration",
           "Runtime monitor: proofs of the STM registration tree (through the cfg-guarded verif_export), MKTree/MKProof, nested MKMap/MKMapProof and MkSetProof are generated and mutated; the committed root is recomputed by reference trees written in the harness (heap tree with H([0]) padding, own MMR, H(key||root) map leaves), and every proof that verifies is judged semantically: each (position, leaf) / item it claims must be committed. Exhaustive for n = 1..12 (quick) / 1..14 (thorough): every non-empty index subset and every single mutation; pairs of mutations and larger trees sampled. Miri run of the pure-Rust parts documented in DESIGN §7.",
@@ -75,7 +75,7 @@ CHECKS = [
           "runtime monitor: recomputation-from-scratch + specification-model oracle over roll-back histories", "DESIGN.md §2 C13"),
     check("C14", "mon-agg", "exploration",
           "History monitor over the REAL aggregator (its own DependenciesBuilder wiring, file-backed sqlite, real state machine/certifier/epoch service/signer registration/signed entity service; doubles only for the outside world): seeded random histories of ticks, epoch changes incl. jumps, new immutables/blocks, partial/late registrations, valid/repeated/invalid/early(buffered) signatures, forced expiry, clean restarts, genesis re-issue; after every event the tables are read through an independent connection and every new certificate row is judged (live open message + quorum of acknowledged valid deliveries, key/parameters recomputed from the logged registrations, parent rule, no double certification, no gap); every stored certificate is verified with the public certificate verifier fed from the aggregator's own message service. Held on the histories explored; evidence lists states/transitions reached.",
-          "test doubles for chain observer / immutable observer / digester / block scanner / uploader / snapshotter; clean restarts only (C15 covers crashes); sqlite durability",
+          "test doubles for chain observer / immutable observer / digester / block scanner / uploader / snapshotter; clean restarts only (C15 covers crashes); sqlite durability; registrations use the fixture's keys or freshly generated KES-certified keys (the last acknowledged registration of a party in a round is the key in force); an acknowledged registration counts for the round it names",
           "runtime monitor: boundary event log + table snapshots checked by a history checker (reference recomputation of keys, parent, quorum)", "DESIGN.md §2 C14"),
     check("C15", "mon-agg", "fault_enumeration",
           "Fault enumeration with real process deaths: scripted honest histories over the real aggregator (rotating over three configurations: all five signed entity types / MithrilStakeDistribution + CardanoDatabase / MithrilStakeDistribution alone) run once unarmed to record which named crash points (after multi-signature, after certificate insert, after open-message update, before/after artifact computation, after signed-entity insert, after each buffered hand-over, before/after buffer removal) are hit how often; then EVERY reached (point, occurrence) is crashed once by std::process::abort() inside the aggregator in a child process, a new process restarts on the same sqlite files and a monitor checks after the restart and after every further tick: all certificates verify with their chain under the public verifier, no signed entity has two artifacts, every artifact references a stored certificate of exactly that entity, and bounded progress, judged twice: inside the epoch of the restart (3 new immutable files must give a new certified artifact when CardanoDatabase is enabled) and overall (a new certified artifact within 8 macro steps of the honest workload, epoch changes included). Double crashes are sampled.",
@@ -83,11 +83,11 @@ CHECKS = [
           "runtime monitoring under injected process crashes (abort at cfg-guarded crash points), invariants + bounded progress after restart", "DESIGN.md §2 C15"),
     check("C16", "mon-agg", "exploration",
           "Runtime monitor over the real aggregator: per open message the harness produces every party's honest signature itself (ground truth of who produced which sigma), then delivers shuffled honest + adversarial submissions (own sigma under another name, another party's sigma under own / unregistered name with full or truncated index lists, replays, truncated replays under the owner's name) through the certifier API, the real warp HTTP router, the buffered path and the message-queue signature processor; after every submission the single_signature table is read independently: each row must hold a sigma that verifies under the key the labelled party registered, no sigma under two labels, acknowledged honest contributions never disappear or shrink; the sealed certificate's signer list must name only parties with such a row.",
-          "ground truth by construction + mithril-stm verification under the labelled party's registered key; on the message queue the party id is bound by the transport so relabelling is only sent through HTTP/API",
+          "ground truth by construction + mithril-stm verification under the labelled party's registered key; on the message queue the party id is bound by the transport so relabelling is only sent through HTTP/API; the queue channel goes through the real SignatureConsumerDmq (batches with messages it must discard); the buffer itself is not judged, its hand-over is (an honest signature acknowledged as buffered and last accepted under its owner's name must be in the table once the message is open)",
           "runtime monitor: ground-truth-by-construction oracle over the store after every submission", "DESIGN.md §2 C16"),
     check("C17", "mon-beacon", "exploration",
           "Runtime monitor: the real SignedEntityConfig::time_point_to_signed_entity / compute_block_number_to_be_signed evaluated on an exhaustive grid (tip 0..700 x 14 security parameters x 15 steps, successive-tip pairs) and millions of seeded 64-bit samples; i128 oracle from the statement: upper bound tip-security floored at 0, monotone in the tip, whole steps, block-range boundary for the transaction entity, purity/agreement across independently built configs and all entity types, epoch 0.",
-          "the direction of rounding the step to the range length is not fixed by the statement: the oracle accepts either as long as one candidate explains every selection of a configuration",
+          "security parameters are sampled up to u64::MAX (one configuration in eight above 2^40), steps up to 2^40, tips up to 2^62; the direction of rounding the step to the range length is not fixed by the statement: the oracle accepts either as long as one candidate explains every selection of a configuration",
           "runtime monitor: arithmetic reference oracle over an exhaustive grid + random samples", "DESIGN.md §2 C17"),
     check("C18", "mon-pool", "exploration",
           "Runtime monitor over the real ResourcePool with resources tagged by the generation that created them: one atomic global sequence counter stamps acquire call/return, give-back (explicit item / drop / raw), refresh begin/complete and count samples; a happens-before checker asserts (S1) an acquire called after refresh_complete(g) returns a tag >= g, (S2) no resource held twice, (S3) count <= size always, (S4, bounded) blocked callers wake or time out. Levels: exhaustive single-threaded histories (10-operation alphabet up to length 6, pool sizes 1-3), 6.4k random histories, 336 multi-threaded stress runs (2-12 threads, with and without seeded delays at the four cfg-guarded hook points between the pool's critical sections; tens of thousands of distinct refresh-window event orders), wake-up scenarios; thorough adds Miri seeds (distinct replayable interleavings, UB/data-race checking) and a ThreadSanitizer run on an FFI-free build of the same source file.",
@@ -99,7 +99,7 @@ CHECKS = [
           "runtime monitor: before/after directory listing against an allowed-set oracle on crafted archives", "DESIGN.md §2 C19"),
     check("C20", "mon-signer", "exploration",
           "History monitor coupling the REAL signer runtime (StateMachine + SignerRunner + real services over file-backed sqlite, real KES signer; sources of /repo/mithril-signer compiled unchanged through a shim crate that only drops the duplicate global allocator) with the REAL aggregator of mon-agg in one process: the signers use the repo's own AggregatorHttpClient and network configuration provider over a loopback listener to a fault-injecting front that forwards to the aggregator's real warp router. Seeded histories over several epochs (epoch changes with new stake distributions, immutables, blocks, dropped requests, lost replies, stale epoch settings, 'round not yet opened', aggregator down / restart, signer restart / stop over whole registration windows). Oracle over the boundary log: (E1) one acknowledged publication and one sigma per beacon, failed publications retried; (E2) every sigma verifies with mithril-stm under the key the signer registered two epochs earlier (model computed from the log only) and is accepted by the aggregator when timely; (E3) signatures only from ReadyToSign with an eligible registration; (E4) bounded resumption after restarts.",
-          "two liveness known findings printed as KNOWN-FINDING; restarts between ticks only; signer keys come from OsRng inside the code under test (schedules are seeded, sigma values differ between runs)",
+          "two liveness known findings printed as KNOWN-FINDING; histories include aggregator restarts with changed protocol parameters (the model reads the parameters per round from the aggregator's own epoch-settings replies) and signer nodes lagging one epoch behind at epoch changes; restarts between ticks only; signer keys come from OsRng inside the code under test (schedules are seeded, sigma values differ between runs)",
           "runtime monitor: boundary event log of two coupled real runtimes under injected faults, checked by a history checker", "DESIGN.md §2 C20"),
 ]
 
